@@ -52,6 +52,14 @@ Compose(r, x, F) ==
   CASE r.op = "seq"    -> After(Expand(r, x), F)
     \* "custom": a mapper written by hand against the public composition API (one builder object kept by the operator)
     [] r.op \in {"mapper", "custom"} -> [a |-> App(x, S, <<F.a>>), t |-> App(x, S, <<F.t>>), l |-> F.l]
+    \* "chain": a hand-written operator chaining TWO workers (10x+1 feeding 10x+2) that hands over only their head nodes
+    \* (the documented `left.extend(apply_head, train_head)` recipe: the tails are traced)
+    [] r.op = "chain" ->
+         LET S1 == IF r.sf THEN St(10 * x + 1, Nil, F.t, F.l) ELSE Nil
+             a1 == App(10 * x + 1, S1, <<F.a>>)
+             t1 == App(10 * x + 1, S1, <<F.t>>)
+             S2 == IF r.sf THEN St(10 * x + 2, Nil, t1, F.l) ELSE Nil
+         IN [a |-> App(10 * x + 2, S2, <<a1>>), t |-> App(10 * x + 2, S2, <<t1>>), l |-> F.l]
     [] r.op = "apply"  -> [a |-> App(x, S, <<F.a>>), t |-> F.t, l |-> F.l]
     [] r.op = "train"  -> [a |-> F.a, t |-> App(x, S, <<F.t>>), l |-> F.l]
     [] r.op = "label"  -> [a |-> F.a, t |-> F.t, l |-> App(x, S, <<F.l>>)]
@@ -120,6 +128,7 @@ Combos == {E(o, s, k, <<>>) : o \in {"lmapper", "lapply", "ltrain"}, s \in BOOLE
 Mappers == {E("mapper", s, 0, <<>>) : s \in BOOLEAN}
 MapReduces == {E("mapreduce", FALSE, 0, ks) : ks \in [1..2 -> Mappers]}
 Twice == {E("twice", FALSE, 0, <<>>)}
+Chains == {E("chain", s, 0, <<>>) : s \in BOOLEAN}
 Seqs(Ls, Rs) == {E("seq", FALSE, 0, <<l, r>>) : l \in Ls, r \in Rs}
 Stacks(Bs, Ks) == {E("stack", FALSE, k, bs) : k \in Ks, bs \in [1..1 -> Bs] \cup [1..2 -> Bs]}
 =============================================================================
